@@ -476,12 +476,25 @@ func vRawURL(c rune) bool {
 //@   modifies nothing
 //@   call WriteString#1 assert (arg1 == string(c) && vRawURL(c)) || (arg1 == "\\" + string(c) && vBackslashOK(c)) || vHexEsc(arg1, c) || (0 < c && arg1 == "\\" + strconv.FormatInt(int64(c), 16) + " ")
 
+// vExponentLike: written right after a number, the unit would be read as the exponent of
+// that number (CSS Syntax §4.3.12: [eE][+-]?[0-9]+), so its first letter must be escaped.
+func vExponentLike(u string) bool {
+	if len(u) == 0 || (u[0] != 'e' && u[0] != 'E') {
+		return false
+	}
+	if len(u) >= 2 && '0' <= u[1] && u[1] <= '9' {
+		return true
+	}
+	return len(u) >= 3 && u[1] == '-' && '0' <= u[2] && u[2] <= '9'
+}
+
 // A dimension whose unit could be read as an exponent (4e, 4E-3) is written with its first
 // letter escaped; the escape must decode to that very letter.
 //@ func (Dimension).serializeTo
 //@   props C20
 //@   modifies anything
 //@   requires writer != nil && t.Unit != "" && forall(i, 0, len(t.Unit), t.Unit[i] != 0)
+//@   call serializeIdentifier#1 assert !vExponentLike(t.Unit)
 //@   call WriteString#2 assert arg1 == "\\45 " && t.Unit[0] == 'E'
 //@   call WriteString#3 assert arg1 == "\\65 " && t.Unit[0] == 'e'
 
